@@ -1121,15 +1121,20 @@ func c01SizeBucket(n int) string {
 }
 
 // c01Class: minimal class of a case for fingerprints — derived from the case only, never from the observation.
+// c01IsPointerText (case classification only): accepted by git-lfs's decoder AND structurally a pointer, or empty
+func c01IsPointerText(b []byte) bool {
+	return len(b) < 1024 && (len(b) == 0 || (c01ImplParses(b) && c08Lenient(b)))
+}
+
 func c01Class(in c01Input, wtRel string, ch c01Chunking, ext string) string {
 	n := len(in.Data)
 	var parts []string
 	fr := ch.firstRead(n)
 	short := fr < n && fr < 1024
 	switch {
-	case short && c01ImplParses(in.Data):
+	case short && c01IsPointerText(in.Data):
 		parts = append(parts, "pointer-split-across-reads")
-	case short && fr > 0 && c01ImplParses(in.Data[:fr]):
+	case short && fr > 0 && c01IsPointerText(in.Data[:fr]):
 		parts = append(parts, "first-read-ends-on-pointer-boundary")
 	case short:
 		parts = append(parts, "short-first-read")
